@@ -55,7 +55,7 @@ def check(case):
 def enum_boundary(tier):
     for name, spec in boccases.boundary_specs(tier):
         yield {'spec': spec, 'name': name}
-    for total in (65537, 131073, 1 << 20) + ((3 * (1 << 18), (1 << 20) + 1, 1 << 21) if tier != 'quick' else ()):
+    for total in (65537, 131073, 1 << 20, 1000000, 100000) + ((3 * (1 << 18), (1 << 20) + 1, 1 << 21) if tier != 'quick' else ()):
         # bags whose length before the checksum is exactly a block boundary (+1) of anything that works block by block
         yield {'spec': boccases.bag_of_total_length(total), 'name': 'bag-length=%d' % total}
     if tier == 'quick':
